@@ -44,6 +44,9 @@ pub struct Focus {
     /// per-mille of actors aimed at out-of-scope destinations or sent by denied peers
     pub offscope_pm: u64,
     pub max_frames: usize,
+    /// per-mille of runs in which a mass banner scan (hundreds to thousands of validated
+    /// connections, as the scanners this responder is made for produce) takes place
+    pub mass_scan_pm: u64,
     /// restrict node build (None = both)
     pub build: Option<Build>,
 }
@@ -88,6 +91,7 @@ impl Focus {
             segment_pm: 400,
             offscope_pm: 150,
             max_frames: 160,
+            mass_scan_pm: 0,
             build: None,
         }
     }
@@ -159,6 +163,7 @@ impl Focus {
                     // the same request again from / towards a slightly different endpoint
                     f.twin_pm = 350;
                 }
+                f.mass_scan_pm = if prop == "C08" { 25 } else { 8 };
                 f
             }
             "C09" => {
@@ -167,6 +172,7 @@ impl Focus {
                     .boost(ActorKind::Scanner, 30)
                     .boost(ActorKind::TcpClient, 30);
                 f.max_frames = 400;
+                f.mass_scan_pm = 15;
                 f
             }
             "C10" => {
@@ -283,6 +289,8 @@ pub struct Plan {
     pub peers: Vec<Peer>,
     pub faults: FaultCfg,
     pub max_frames: usize,
+    /// number of connections of the mass banner scan of this run, if any
+    pub mass_scan: Option<u32>,
     /// addresses the node handles and that peers may target (when no list is configured: arbitrary ones)
     pub targets4: Vec<Ipv4Addr>,
     pub targets6: Vec<Ipv6Addr>,
@@ -467,13 +475,19 @@ impl Plan {
             2 => 4_102_444_800_000 + rng.below(86_400_000),  // 2100
             _ => 1_600_000_000_000 + rng.below(200_000_000_000),
         };
+        let mass_scan = if focus.mass_scan_pm > 0 && rng.below(1000) < focus.mass_scan_pm {
+            Some(*rng.pick(&[300u32, 600, 1100, 2200]))
+        } else {
+            None
+        };
         Plan {
             cfg,
             start_ms,
             horizon_us: rng.range(1, 60) * 1_000_000,
             peers,
             faults,
-            max_frames: focus.max_frames,
+            max_frames: focus.max_frames + mass_scan.map(|n| 2 * n as usize + 100).unwrap_or(0),
+            mass_scan,
             targets4: t4,
             targets6: t6,
             foreign4: f4,
